@@ -202,6 +202,20 @@ func (s *Store) finishSnapshotAsync(snap *jobSnapshot) (uri string, err error) {
 	// Accessing state to update completedSnapshots
 	s.stateMu.Lock()
 
+	if n := len(s.state.completedSnapshots); n > 0 && s.state.completedSnapshots[n-1].id > snap.id {
+		// A newer checkpoint was published while this one was still being
+		// written: it is obsolete already and must neither replace the newer one
+		// nor be announced for retention.
+		s.stateMu.Unlock()
+		go func() {
+			path := filepath.Join(s.checkpointsPath, "job-"+pathSegment(snap.id)+".snapshot")
+			if err := s.fileStore.Remove(path); err != nil {
+				s.log.Error("failed to remove obsolete checkpoint file", "path", path, "err", err)
+			}
+		}()
+		return uri, nil
+	}
+
 	// When a new checkpoint is finished, all previous checkpoints are obsolete.
 	if len(s.state.completedSnapshots) > 0 {
 		obsoleteIDs := make([]uint64, 0, len(s.state.completedSnapshots))
